@@ -240,6 +240,24 @@ mod real {
         (o, extra)
     }
 
+    /// Is there a listening TCP socket on this port (any address, IPv4 or IPv6)?  Read from
+    /// /proc/net/tcp and /proc/net/tcp6: purely passive.
+    fn listening(port: u16) -> bool {
+        let suffix = format!(":{:04X}", port);
+        for f in ["/proc/net/tcp", "/proc/net/tcp6"] {
+            if let Ok(t) = std::fs::read_to_string(f) {
+                for l in t.lines().skip(1) {
+                    let mut it = l.split_whitespace();
+                    let (_, local, _, st) = (it.next(), it.next().unwrap_or(""), it.next(), it.next().unwrap_or(""));
+                    if st == "0A" && local.ends_with(&suffix) {
+                        return true;
+                    }
+                }
+            }
+        }
+        false
+    }
+
     fn tasks() -> usize {
         std::fs::read_dir("/proc/self/task").map(|d| d.count()).unwrap_or(0)
     }
@@ -301,7 +319,7 @@ mod real {
                     Ok(mut c) => {
                         let local = c.local_addr().ok();
                         let _ = c.write_all(b"GET /peer HTTP/1.1\r\nHost: t\r\nConnection: close\r\n\r\n");
-                        let seen = match server.recv_timeout(Duration::from_secs(2)) {
+                        let seen = match server.recv_timeout(Duration::from_secs(10)) {
                             Ok(Some(rq)) => {
                                 let a = rq.remote_addr().copied();
                                 let _ = rq.respond(Response::from_string("x"));
@@ -348,7 +366,7 @@ mod real {
                         before = match TcpStream::connect(&target) {
                             Ok(mut c) => {
                                 let _ = c.write_all(b"GET / HTTP/1.1\r\nHost: t\r\nConnection: close\r\n\r\n");
-                                match server.recv_timeout(Duration::from_secs(2)) {
+                                match server.recv_timeout(Duration::from_secs(10)) {
                                     Ok(Some(rq)) => {
                                         let _ = rq.respond(tiny_http::Response::from_string("x"));
                                         true
@@ -360,12 +378,23 @@ mod real {
                         };
                     }
                     drop(server);
-                    std::thread::sleep(Duration::from_millis(500));
+                    // watch passively (/proc/net/tcp*, no connection attempt: that would be the
+                    // wake-up the accept thread may be waiting for) until the listening socket
+                    // is gone, for at most 3 s; a loaded machine may need more than a moment
                     let t0 = Instant::now();
-                    let first = TcpStream::connect(&target);
-                    let refused = first.is_err();
+                    let mut gone_after_ms = None;
+                    while t0.elapsed() < Duration::from_secs(3) {
+                        if !listening(port) {
+                            gone_after_ms = Some(t0.elapsed().as_millis() as u64);
+                            break;
+                        }
+                        std::thread::sleep(Duration::from_millis(10));
+                    }
+                    // then the very first attempt must be refused (if the port is still
+                    // listening after 3 s the attempt is not made at all)
+                    let refused = gone_after_ms.is_some() && TcpStream::connect(&target).is_err();
                     rows.push(json!({"bind": bind, "connect_to": target, "bound": true, "served_a_request_before": served_before, "served_ok": before,
-                        "first_attempt_500ms_after_drop_refused": refused, "attempt_took_us": t0.elapsed().as_micros() as u64}));
+                        "listening_socket_gone_after_ms": gone_after_ms, "first_attempt_500ms_after_drop_refused": refused}));
                 }
             }
             out.insert("tcp_drop_by_bind_address".into(), json!(rows));
